@@ -190,14 +190,31 @@ class Gen13:
         return [st]
 
     def with_block(self, sc, budget, real):
-        self.features.add('with-real' if real else 'with-ctx')
-        spec = CtxSpec('REAL') if real else small_ctx(self.r)
+        r = self.r
         s2 = dict(sc)
-        body = self.stmts(s2, self.r.randint(1, 3), budget - 1)
+        pre = []
+        if not real and self.reals(sc) and r.random() < 0.45:
+            # a context chosen at run time (the constructor's argument depends on a run-time test), with
+            # foldable inexact operations in its body: nothing in there is a compile-time constant
+            self.features.add('with-dynamic')
+            rm = r.choice(['RNE', 'RTZ', 'RTP'])
+            pick = Node('ife', self.test1(sc), lit(r.randint(2, 4)), lit(r.randint(5, 9)))
+            if r.random() < 0.6:
+                header = Node('ctor', 'MPFloat', rm, None, [pick])
+            else:
+                header = Node('ctor', 'MPSFloat', rm, None, [pick, lit(r.randint(-4, 0))])
+            c1, c2 = self.fresh('q'), self.fresh('q')
+            pre = [Node('assign', PV(c1), Node('op2', 'div', lit(r.choice([1, 2, 5])), lit(r.choice([3, 7])))),
+                   Node('assign', PV(c2), Node('op2', r.choice(['add', 'mul']), V(c1), lit(r.choice([F(1, 10), F(1, 3), 3]))))]
+            s2[c1] = s2[c2] = 'R'
+        else:
+            self.features.add('with-real' if real else 'with-ctx')
+            header = self.ctxval(CtxSpec('REAL') if real else small_ctx(r))
+        body = pre + self.stmts(s2, r.randint(1, 3), budget - 1)
         # what the block defines stays defined afterwards
         for x, t in s2.items():
             sc[x] = t
-        return [Node('with', None, self.ctxval(spec), body)]
+        return [Node('with', None, header, body)]
 
     def while_loop(self, sc, budget):
         r = self.r
@@ -473,3 +490,68 @@ class Gen13:
             else:
                 out.append([one() for _ in range(t[1])])
         return out
+
+
+# ---------------------------------------------------------------- calls of callees with symbolic list dimensions
+_SIZED_PRELUDE = '''import fpy2 as fp
+from fpy2.utils import NamedId
+from fpy2.ast.fpyast import ListTypeAnn, RealTypeAnn
+
+
+def _sized(func, **dims):
+    """Give list parameters a symbolic dimension name (what the FPCore frontend produces for `(xs N)`)."""
+    for arg in func.ast.args:
+        if str(arg.name) in dims:
+            arg.type = ListTypeAnn(RealTypeAnn(None, None), NamedId(dims[str(arg.name)]), None)
+    return func
+
+'''
+
+
+def sized_call_program(r):
+    """Module text + argument tuples: a caller `main` whose list parameters carry dimension names calls callees whose
+    parameters carry (the same) dimension names and return their argument directly / in a tuple / in a nested
+    tuple.  Parameters of `main` that share a dimension name get lists of equal length; the others do not."""
+    shapes = {
+        'plain': ('return xs', 'ys = {g}({arg})'),
+        'pair': ('return (xs, len(xs))', '(ys, n1) = {g}({arg})'),
+        'pair2': ('return (sum(xs), xs)', '(n1, ys) = {g}({arg})'),
+        'nested': ('return (0.5, (xs, 1))', '(z1, (ys, o1)) = {g}({arg})'),
+        'nested2': ('return ((xs, 2), (1, xs))', '((ys, o1), (z1, ys2)) = {g}({arg})'),
+    }
+    lines = [_SIZED_PRELUDE]
+    use = r.sample(sorted(shapes), r.randint(1, 2))
+    for i, k in enumerate(use):
+        lines += ['@fp.fpy', f'def g{i}(xs: list[fp.Real]):', f'    {shapes[k][0]}', '', f"_sized(g{i}, xs='{r.choice(['N', 'N', 'M'])}')", '']
+    three = r.random() < 0.5
+    params = 'a: list[fp.Real], b: list[fp.Real]' + (', c: list[fp.Real]' if three else '')
+    body = []
+    outs = []
+    for i, k in enumerate(use):
+        arg = r.choice(['b', 'b', 'a'])
+        call = shapes[k][1].format(g=f'g{i}', arg=arg).replace('ys', f'ys{i}').replace('n1', f'n{i}').replace('z1', f'z{i}').replace('o1', f'o{i}')
+        body.append(call)
+        outs.append(f'ys{i}')
+    body.append('s = ' + ' + '.join([f'sum({o})' for o in outs] + ['len(a)']))
+    if r.random() < 0.4:
+        body.append('t = [x for x in ' + outs[0] + ']')
+        outs.append('t')
+    k = r.random()
+    if k < 0.4:
+        body.append(f'return {outs[0]}')
+    elif k < 0.7:
+        body.append(f'return ({outs[-1]}, a, s)')
+    else:
+        body.append('return s')
+    lines += ['@fp.fpy', f'def main({params}):'] + ['    ' + b for b in body] + ['']
+    dims = "a='N'" + (", c='N'" if three else '') + (", b='K'" if r.random() < 0.3 else '')
+    lines.append(f'_sized(main, {dims})')
+    text = '\n'.join(lines) + '\n'
+
+    def lst(n):
+        return [N.fin(r.choice([1, 2, -3, F(1, 2), 0])) for _ in range(n)]
+    arg_sets = []
+    for _ in range(4):
+        la, lb = r.randint(0, 4), r.randint(0, 4)
+        arg_sets.append([lst(la), lst(lb)] + ([lst(la)] if three else []))
+    return text, arg_sets
